@@ -109,7 +109,9 @@ pub fn account(sum: &mut Summary, case: &Case, obs: &Observation) {
    } else if s.preemptions >= 1 && s.max_task >= 1 {
       sum.nontrivial_hashes.push(s.hash);
    }
-   sum.digests.push((case.index, s.hash, result_digest(obs)));
+   if std::env::var_os("VSIM_DIGESTS").is_some() {
+      sum.digests.push((case.index, s.hash, result_digest(obs)));
+   }
    for (i, n) in obs.counters.sites.iter().enumerate() {
       bump(&mut sum.sites, verif_rt::SITE_NAMES[i], *n);
    }
